@@ -15,6 +15,7 @@ and signature.  On load:
 Anything that is not a pure rename (a field added, a type changed, a parameter added) is left alone and the rules'
 own anchors decide.  The list is never used to fire a rule.
 """
+import copy
 import json
 import os
 
@@ -182,4 +183,123 @@ def apply(raw, known=None):
                 if want and dbg["name"] != want:
                     rep["args"].append((path, dbg["name"], want))
                     dbg["name"] = want
+    return rep
+
+
+def flatten_new_structs(raw, known=None):
+    """A refactoring that groups some fields of a struct S into a new private struct T (`sent_offset, acked_offset` ->
+    `credit: CreditWindow { sent, acked }`) changes every place that names them.  When S's reference field list is obtained
+    from its current one by replacing each field of a type the reference tree does not have by that type's own fields (same
+    types, same order), the grouping is undone: `s.credit.sent` is read as `s.sent_offset` again, and literals of S are
+    flattened.  Runs after helper inlining so that T's methods are seen at their call sites.  Returns [(S, field, T, {T field:
+    reference field})]."""
+    known = known if known is not None else load_known()
+    rep = []
+    if not known:
+        return rep
+    adts = raw["adts"]
+    plans = {}
+    for S, ref in known["adts"].items():
+        a = adts.get(S)
+        if a is None or a.get("kind") != "struct" or not a.get("variants"):
+            continue
+        cur = a["variants"][0]["fields"]
+        if [[f["name"], f.get("ty")] for f in cur] == ref:
+            continue
+        flat = []       # (S field or None, T, T field name, type)
+        ok = True
+        for f in cur:
+            T = f.get("ty")
+            ta = adts.get(T)
+            if T not in known["adts"] and ta is not None and ta.get("kind") == "struct" and ta.get("variants") and T.split("::")[0] == S.split("::")[0]:
+                for tf in ta["variants"][0]["fields"]:
+                    flat.append((f["name"], T, tf["name"], tf.get("ty")))
+            else:
+                flat.append((f["name"], None, None, f.get("ty")))
+        if len(flat) != len(ref) or any(x[3] != rt for x, (_, rt) in zip(flat, ref)):
+            continue
+        # ungrouped fields must keep their names (a rename is canon.apply's business and has already been undone)
+        if any(x[1] is None and x[0] != rn for x, (rn, _) in zip(flat, ref)):
+            continue
+        groups = {}
+        for k, (x, (rn, _)) in enumerate(zip(flat, ref)):
+            if x[1] is not None:
+                groups.setdefault((x[0], x[1]), {})[x[2]] = (rn, k)
+        if groups:
+            plans[S] = (groups, ref)
+    if not plans:
+        return rep
+
+    def fix_place(pl):
+        p = pl["p"]
+        out = []
+        k = 0
+        while k < len(p):
+            e = p[k]
+            if isinstance(e, dict) and e.get("a") in plans and "f" in e:
+                groups, ref = plans[e["a"]]
+                nxt = p[k + 1] if k + 1 < len(p) else None
+                hit = None
+                for (g, T), m in groups.items():
+                    if e["f"] == g and isinstance(nxt, dict) and nxt.get("a") == T and nxt.get("f") in m:
+                        hit = m[nxt["f"]]
+                if hit is not None:
+                    out.append({"f": hit[0], "i": hit[1], "a": e["a"]})
+                    k += 2
+                    continue
+                names = [rn for rn, _ in ref]
+                if e["f"] in names:
+                    e = dict(e)
+                    e["i"] = names.index(e["f"])
+            out.append(e)
+            k += 1
+        pl["p"] = out
+
+    def walk(x):
+        if isinstance(x, dict):
+            if "l" in x and "p" in x and isinstance(x.get("p"), list) and isinstance(x.get("l"), int):
+                fix_place(x)
+            for v in x.values():
+                walk(v)
+        elif isinstance(x, list):
+            for v in x:
+                walk(v)
+    from . import inline
+    for path, body in raw["bodies"].items():
+        walk(body["blocks"])
+        # literals of S: splice the literal of T in
+        for blk in body["blocks"]:
+            for st in blk["stmts"]:
+                rv = st.get("rv") if st["k"] == "assign" else None
+                if not (rv and rv.get("agg") == "adt" and rv.get("adt") in plans):
+                    continue
+                groups, ref = plans[rv["adt"]]
+                fields, ops = [], []
+                good = True
+                for fn_, op in zip(rv["fields"], rv["ops"]):
+                    grp = [(g, T) for (g, T) in groups if g == fn_]
+                    if not grp:
+                        fields.append(fn_)
+                        ops.append(op)
+                        continue
+                    g, T = grp[0]
+                    q = op.get("move") or op.get("copy")
+                    d = inline._single_def(body, q["l"]) if q is not None and not q["p"] else None
+                    if d is None or d[0] != "assign" or d[2]["rv"].get("agg") != "adt" or d[2]["rv"].get("adt") != T:
+                        good = False
+                        break
+                    m = groups[(g, T)]
+                    for tf, top in zip(d[2]["rv"]["fields"], d[2]["rv"]["ops"]):
+                        fields.append(m[tf][0])
+                        ops.append(copy.deepcopy(top))
+                if good:
+                    order = [rn for rn, _ in ref]
+                    pairs = sorted(zip(fields, ops), key=lambda z: order.index(z[0]) if z[0] in order else 99)
+                    rv["fields"] = [z[0] for z in pairs]
+                    rv["ops"] = [z[1] for z in pairs]
+    for S, (groups, ref) in plans.items():
+        old = {f["name"]: f for f in adts[S]["variants"][0]["fields"]}
+        adts[S]["variants"][0]["fields"] = [dict(old.get(rn, {}), name=rn, ty=rt) for rn, rt in ref]
+        for (g, T), m in groups.items():
+            rep.append((S, g, T, {k: v[0] for k, v in m.items()}))
     return rep
